@@ -298,7 +298,7 @@ static int plan_tmax(const struct plan *pl, const struct shape *sh)
 /* one group = one stripe explored under a plan */
 static void explore_stripe(const struct plan *pl, struct shape sh, int ct, uint64_t len, int pat, const char *env, int pres_mode_override, int tmax_override)
 {
-    if (!vh_group_begin("S/%s/%s/k%dm%dhd%d/ct%d/len%lu/%s%s%s", pl->prop, be_name(sh.be), sh.k, sh.m, sh.hd, ct, (unsigned long)len, vh_pat_name[pat],
+    if (!vh_group_begin("S/%s/%s/k%dm%dhd%d%s/ct%d/len%lu/%s%s%s", pl->prop, be_name(sh.be), sh.k, sh.m, sh.hd, wtag(&sh), ct, (unsigned long)len, vh_pat_name[pat],
                         env ? "/env" : "", env ? env : "")) return;
     struct stripe s;
     if (stripe_open(&s, sh, ct, len, pat, env) == 0) {
@@ -385,6 +385,9 @@ static void plan_roundtrip(const char *prop, int with_rs, int with_xor, int with
             }
             explore_stripe(&pl, sh[i], ct, len, pat, NULL, pm, tmax);
         }
+        /* caller-supplied word sizes the backend ignores: same stripe, same results */
+        if (full) { int wv[4]; int nw = w_variants(sh[i].be, wv);
+            for (int q = 0; q < nw; q++) { struct shape sw = sh[i]; sw.wv = wv[q]; explore_stripe(&pl, sw, CHKSUM_CRC32, q & 1 ? 1 : 2 * a + 3, PAT_RAMP, NULL, 1, -1); } }
     }
     free(sh);
 }
@@ -512,7 +515,7 @@ static void plan_c06(int with_rs, int with_xor, int with_isa, const char *prop)
 /* ------------------------------------------------------------------ plan C07 wire format, C04(d)/C05 parity bytes */
 static void encode_vs_reference(const char *prop, struct shape sh, int ct, uint64_t len, int pat, const char *env, int payload_only, int parity_only)
 {
-    if (!vh_group_begin("S/%s/%s/k%dm%dhd%d/ct%d/len%lu/%s%s%s/encode", prop, be_name(sh.be), sh.k, sh.m, sh.hd, ct, (unsigned long)len, vh_pat_name[pat], env ? "/env" : "", env ? env : "")) return;
+    if (!vh_group_begin("S/%s/%s/k%dm%dhd%d%s/ct%d/len%lu/%s%s%s/encode", prop, be_name(sh.be), sh.k, sh.m, sh.hd, wtag(&sh), ct, (unsigned long)len, vh_pat_name[pat], env ? "/env" : "", env ? env : "")) return;
     struct stripe s;
     if (stripe_open(&s, sh, ct, len, pat, env) == 0) {
         uint64_t al = ref_aligned(sh.be, sh.k, len); uint32_t bs = (uint32_t)(al / (uint64_t)sh.k);
@@ -580,6 +583,8 @@ static void plan_c07(void)
                 encode_vs_reference("C07", sh[i], ct, L[li], pat, e ? "1" : NULL, 0, 0);
             }
         }
+        { int wv[4]; int nw = w_variants(sh[i].be, wv); uint64_t a = (uint64_t)sh[i].k * word_bytes(sh[i].be);
+          for (int q = 0; q < nw; q++) { struct shape sw = sh[i]; sw.wv = wv[q]; encode_vs_reference("C07", sw, CHKSUM_CRC32, 2 * a + 3, PAT_RAMP, NULL, 0, 0); encode_vs_reference("C07", sw, CHKSUM_NONE, 1, PAT_RAMP, NULL, 0, 0); } }
     }
     free(sh);
 }
@@ -662,6 +667,8 @@ static void plan_c04(void)
             if (li >= bf && pat) continue;
             encode_vs_reference("C04", sh[i], CHKSUM_NONE, L[li], pat == 2 ? PAT_ONES : pat, NULL, 1, 1);
         }
+        { int wv[4]; int nw = w_variants(sh[i].be, wv); uint64_t a = (uint64_t)sh[i].k * 2;
+          for (int q = 0; q < nw; q++) { struct shape sw = sh[i]; sw.wv = wv[q]; encode_vs_reference("C04", sw, CHKSUM_NONE, 2 * a + 3, PAT_RAMP, NULL, 0, 1); encode_vs_reference("C04", sw, CHKSUM_NONE, 1, PAT_ONES, NULL, 0, 1); } }
     }
     free(sh);
 }
@@ -720,6 +727,8 @@ static void plan_c05(void)
             if (pat == 0) explore_stripe(&pl, sh[i], q & 1 ? CHKSUM_CRC32 : CHKSUM_NONE, len, PAT_RAMP, NULL, (q == 1 || q == 2) ? 1 : 0, -1);
         }
     }
+    for (int i = 0; i < ns; i++) { int wv[4]; int nw = w_variants(sh[i].be, wv);
+        for (int q = 0; q < nw; q++) { struct shape sw = sh[i]; sw.wv = wv[q]; encode_vs_reference("C05", sw, CHKSUM_NONE, (uint64_t)sh[i].k * 12 - 1, PAT_RAMP, NULL, 0, 1); } }
 }
 
 /* ------------------------------------------------------------------ plan C08 */
@@ -750,8 +759,11 @@ static void plan_c08(void)
 {
     int thorough = !strcmp(vh_tier(), "thorough");
     struct shape *sh; int ns; collect_shapes(&sh, &ns, 1, 1, 1);
+    /* every shape, plus (rs_vand, flat_xor_hd) the same shape created with caller-supplied word sizes the backend ignores */
+    int nbase = ns; sh = realloc(sh, sizeof(struct shape) * (size_t)ns * 5);
+    for (int i = 0; i < nbase; i++) { int wv[4]; int nw = w_variants(sh[i].be, wv); for (int q = 0; q < nw; q++) { sh[ns] = sh[i]; sh[ns].wv = wv[q]; ns++; } }
     for (int i = 0; i < ns; i++) {
-        if (!vh_group_begin("S/C08/%s/k%dm%dhd%d", be_name(sh[i].be), sh[i].k, sh[i].m, sh[i].hd)) continue;
+        if (!vh_group_begin("S/C08/%s/k%dm%dhd%d%s", be_name(sh[i].be), sh[i].k, sh[i].m, sh[i].hd, wtag(&sh[i]))) continue;
         int desc = create_instance(&sh[i], CHKSUM_NONE);
         if (desc <= 0) { vh_violation("create-refused", "create returned %d", desc); vh_group_end(); continue; }
         uint64_t a = (uint64_t)sh[i].k * word_bytes(sh[i].be);
@@ -764,6 +776,7 @@ static void plan_c08(void)
         for (uint64_t len = 0; len <= 4 * a + 2; len++) c08_len(desc, sh[i], len, 1);
         for (int p = 3; p <= 20; p++) {
             uint64_t P = 1ull << p; if (P <= 4 * a + 2) continue;
+            if (sh[i].wv && p != 12) continue;
             uint64_t below = P / a * a, above = (P + a - 1) / a * a;
             uint64_t c[2] = { below, above };
             for (int q = 0; q < 2; q++) for (int dlt = -2; dlt <= 2; dlt++) {
@@ -774,7 +787,7 @@ static void plan_c08(void)
                 c08_len(desc, sh[i], len, (dlt == 0 || dlt == 1) && (p <= 13 || sh[i].m <= 2 || named_shape(&sh[i])));
             }
         }
-        if (thorough && named_shape(&sh[i])) for (uint64_t len = 0; len <= 1u << 20; len += 1) c08_len(desc, sh[i], len, 0);
+        if (thorough && named_shape(&sh[i]) && !sh[i].wv) for (uint64_t len = 0; len <= 1u << 20; len += 1) c08_len(desc, sh[i], len, 0);
         liberasurecode_instance_destroy(desc);
         gbuf_free(&c08_buf);
         /* unknown descriptors */
